@@ -132,6 +132,10 @@ func (s *set[ElementType]) replace(elements ds.ReadableSet[ElementType]) (applie
 
 	// report the actual difference between the previous and the new elements (subscribers fold the reported mutations,
 	// so elements that are retained must neither show up as added nor as deleted)
+	// the argument is read once: it may be a set that other goroutines write to while it is handed over, and the reported
+	// difference has to match what is stored
+	elements = ds.NewSet(elements.ToSlice()...)
+
 	addedElements := elements.Filter(func(element ElementType) bool { return !s.value.Has(element) })
 	removedElements := s.value.Filter(func(element ElementType) bool { return !elements.Has(element) })
 
